@@ -9,13 +9,14 @@ sys.path.insert(0, os.path.join(os.path.dirname(__file__), ".."))
 from cv import bfsrun, graphs  # noqa: E402
 from cv.core import VERIF, Check  # noqa: E402
 
-THEOREMS = ["Cv.absSt_spec", "Cv.refLayers_spec", "Cv.refLayers_orbit"]
-THEOREMS_TARGET = [
+THEOREMS = [
+    "Cv.absSt_spec",
     "Cv.refLayers_spec",
+    "Cv.refLayers_orbit",
+    "Cv.window2_sound",
     "Cv.bfs_layers_eq_dist",
     "Cv.bfs_completes",
     "Cv.bfs_config_independent",
-    "Cv.window2_sound",
 ]
 
 
@@ -131,7 +132,7 @@ def main():
         if "replay" in body or "case" in body:
             run_case(ck, body.get("case") or body["replay"]["case"])
         ck.finish(rule="replay of one recorded case")
-    ck.lean_obligations("CvProps", THEOREMS)
+    ck.lean_obligations(["CvProps.C01", "CvProps.C17"], THEOREMS)
     # corpus first
     corpus = json.load(open(os.path.join(VERIF, "harness", "corpus", "C01.json")))
     for case in corpus:
